@@ -150,6 +150,7 @@ type Exec struct {
 	DivergeAt int
 	Threads   int
 	TraceLog  []string
+	Prefix    []int // the choice prefix this execution was asked to replay
 }
 
 func (x *Exec) Choices() []int {
@@ -259,7 +260,7 @@ func Run(cfg Config, env any, main func()) *Exec {
 		RaceJoin(t)
 	}
 	x := &Exec{Outcome: s.outcome, Points: s.points, Steps: s.steps, Virtual: time.Duration(s.now), Crash: s.crash,
-		Blocked: s.blocked, DivergeAt: s.diverge, Threads: len(s.threads), TraceLog: s.trace}
+		Blocked: s.blocked, DivergeAt: s.diverge, Threads: len(s.threads), TraceLog: s.trace, Prefix: cfg.Prefix}
 	return x
 }
 
